@@ -174,7 +174,9 @@ class Ctx:
         self.vals: Dict[int, Val] = {}
         self.calls: List[CallRec] = []
         self.effects = set()
-        self.ret_sites: List[Tuple[int, Val]] = []
+        self.node_effects: Dict[int, set] = {}
+        self.calls_map: Dict[tuple, CallRec] = {}
+        self.ret_sites: Dict[int, Val] = {}
         self.in_progress = False
         self.done_iter = -1
         self.recording = False
@@ -500,6 +502,7 @@ class FuncInterp(ModelsMixin, CallModelsMixin):
         ctx.vals = {}
         ctx.calls_map = {}
         ctx.effects = set()
+        ctx.node_effects = {}
         ctx.ret_sites = {}
         ctx.unresolved = []
         st0 = State()
@@ -681,7 +684,10 @@ class FuncInterp(ModelsMixin, CallModelsMixin):
         for o in objs:
             if root_of(o) is None and self._base(o)[0] != "G":
                 continue
-            self.ctx.effects.add(("W" if field else "M", o, field, self.loc(node), what))
+            eff = ("W" if field else "M", o, field, self.loc(node), what)
+            self.ctx.effects.add(eff)
+            if self.cur is not None:
+                self.ctx.node_effects.setdefault(self.cur.id, set()).add(eff)
 
     # ------------------------------------------------------------------ heap
     def read_field(self, base: Val, f: str, st: State, node=None) -> Val:
@@ -1521,7 +1527,10 @@ class FuncInterp(ModelsMixin, CallModelsMixin):
         for kind, obj, field, loc, what in summ.effects:
             for o in sub.obj(obj):
                 if root_of(o) is not None or self._base(o)[0] == "G":
-                    self.ctx.effects.add((kind, o, field, loc, what))
+                    eff = (kind, o, field, loc, what)
+                    self.ctx.effects.add(eff)
+                    if self.cur is not None:
+                        self.ctx.node_effects.setdefault(self.cur.id, set()).add(eff)
         updates = []
         for (obj, f), v in summ.heap.items():
             tg = sub.obj(obj)
